@@ -27,6 +27,7 @@ type KubeletOptions struct {
 	ExitOnDelete int // 1-in-N deleted Pods first report a terminal status of their own (Succeeded/Failed) before being removed
 	MaxRun       int // seconds (default 15)
 	SlowStart    int // 1-in-N scheduled Pods take 20-70 s before their container starts (slow image pull)
+	Sidecar      int // 1-in-N Pods run a helper container next to the main one; it exits (code 0 or 1) a second after the start while the main container keeps running
 	TermFlap     int // 1-in-N terminated Pods are reported once more without any container status (node agent restart), then restored
 }
 
@@ -42,6 +43,7 @@ type Fate struct {
 	Flap       bool
 	VanishAt   time.Duration // >0: removed externally that long after it started running
 	TermFlap   bool
+	Sidecar    string // "" | ok | err : how the helper container exits
 }
 
 func (o KubeletOptions) FateOf(name string) Fate {
@@ -86,6 +88,10 @@ func (o KubeletOptions) FateOf(name string) Fate {
 		f.StartDelay = time.Duration(20+r.Intn(50)) * time.Second
 	}
 	f.TermFlap = o.TermFlap > 0 && r.Intn(o.TermFlap) == 0
+	if o.Sidecar > 0 && r.Intn(o.Sidecar) == 0 {
+		f.Sidecar = []string{"ok", "err"}[r.Intn(2)]
+		f.Flap = false
+	}
 	return f
 }
 
@@ -169,6 +175,13 @@ func (k *kubelet) nextAction(p *corev1.Pod) (string, time.Time, bool) {
 		if p.Status.StartTime != nil {
 			start = p.Status.StartTime.Time
 		}
+		if f.Sidecar != "" && f.RunFor > time.Second {
+			for _, cs := range p.Status.ContainerStatuses {
+				if cs.Name == "helper" && cs.State.Running != nil {
+					return "sidecar", start.Add(time.Second), true
+				}
+			}
+		}
 		if f.Flap && k.flapped[p.Name] < 2 {
 			return "flap", start.Add(time.Second), true
 		}
@@ -246,6 +259,17 @@ func (k *kubelet) step(nsname string) {
 		p.Status.StartTime = &now
 		p.Status.Conditions = []corev1.PodCondition{{Type: corev1.PodScheduled, Status: corev1.ConditionTrue}}
 		p.Status.ContainerStatuses = []corev1.ContainerStatus{{Name: "c", State: corev1.ContainerState{Running: &corev1.ContainerStateRunning{StartedAt: now}}}}
+		if f.Sidecar != "" {
+			p.Status.ContainerStatuses = append([]corev1.ContainerStatus{{Name: "helper", State: corev1.ContainerState{Running: &corev1.ContainerStateRunning{StartedAt: now}}}}, p.Status.ContainerStatuses...)
+		}
+		_, _ = pods.UpdateStatus(ctx, p, metav1.UpdateOptions{})
+	case "sidecar":
+		// the helper container exits; the Pod stays Running because its main container still runs
+		for i := range p.Status.ContainerStatuses {
+			if cs := &p.Status.ContainerStatuses[i]; cs.Name == "helper" && cs.State.Running != nil {
+				cs.State = corev1.ContainerState{Terminated: helperTerminated(f, cs.State.Running.StartedAt, now)}
+			}
+		}
 		_, _ = pods.UpdateStatus(ctx, p, metav1.UpdateOptions{})
 	case "flap":
 		if k.flapped[p.Name] == 0 {
@@ -292,7 +316,22 @@ func (k *kubelet) step(nsname string) {
 				term.Reason = "OOMKilled"
 			}
 		}
+		var helper *corev1.ContainerStatus
+		for i := range p.Status.ContainerStatuses {
+			if cs := p.Status.ContainerStatuses[i]; cs.Name == "helper" {
+				if cs.State.Running != nil {
+					cs.State = corev1.ContainerState{Terminated: helperTerminated(f, cs.State.Running.StartedAt, now)}
+				}
+				helper = &cs
+			}
+		}
 		p.Status.ContainerStatuses = []corev1.ContainerStatus{{Name: "c", State: corev1.ContainerState{Terminated: term}}}
+		if helper != nil {
+			p.Status.ContainerStatuses = append([]corev1.ContainerStatus{*helper}, p.Status.ContainerStatuses...)
+			if helper.State.Terminated != nil && helper.State.Terminated.ExitCode != 0 {
+				p.Status.Phase = corev1.PodFailed // restartPolicy Never: one failed container fails the Pod
+			}
+		}
 		_, _ = pods.UpdateStatus(ctx, p, metav1.UpdateOptions{})
 	case "remove":
 		_ = pods.Delete(ctx, p.Name, metav1.DeleteOptions{GracePeriodSeconds: &zero})
@@ -300,6 +339,14 @@ func (k *kubelet) step(nsname string) {
 		// the node disappears with the Pod: an outside actor force-deletes the object
 		_ = k.w.GC.Kubernetes().CoreV1().Pods(p.Namespace).Delete(ctx, p.Name, metav1.DeleteOptions{GracePeriodSeconds: &zero})
 	}
+}
+
+func helperTerminated(f Fate, started, now metav1.Time) *corev1.ContainerStateTerminated {
+	t := &corev1.ContainerStateTerminated{StartedAt: started, FinishedAt: now, Reason: "Completed"}
+	if f.Sidecar == "err" {
+		t.ExitCode, t.Reason = 1, "Error"
+	}
+	return t
 }
 
 // cronRecorder is a no-op croncontroller.Recorder.
